@@ -6,11 +6,11 @@ import (
 	"errors"
 	"fmt"
 	"os"
-	"os/exec"
 	"reflect"
 	"runtime"
 	"strconv"
 	"strings"
+	"time"
 
 	"github.com/cloudwego/gopkg/protocol/thrift"
 
@@ -49,11 +49,12 @@ func runC07(c *harness.Ctx, idx int) {
 	c.Hint(fmt.Sprintf("poison=%v", poison))
 	c.Shape(fmt.Sprint(c.Seed, idx))
 	c.Tag(fmt.Sprintf("poison:%v", poison))
-	exe, _ := os.Executable()
-	cmd := exec.Command(exe, "-sub", fmt.Sprintf("c07|%d|%d|%v", c.Seed, idx, poison))
-	var out, errb bytes.Buffer
-	cmd.Stdout, cmd.Stderr = &out, &errb
-	err := cmd.Run()
+	outB, errB, err, hung := runSub(fmt.Sprintf("c07|%d|%d|%v", c.Seed, idx, poison), nil, 10*time.Minute)
+	if hung {
+		c.Inconclusive("sequence process exceeded the 10 min wall-clock limit: %s", clipStr(string(errB), 1500))
+		return
+	}
+	out, errb := bytes.NewBuffer(outB), bytes.NewBuffer(errB)
 	var res c07Result
 	if jerr := json.Unmarshal(out.Bytes(), &res); err != nil || jerr != nil {
 		es := errb.String()
